@@ -81,13 +81,17 @@ VARIABLES S,        \* [bod, blk, roots, canon, headB, headH, txl, cur]: databas
           cm,       \* the modes of the calls that were interrupted so far (with two crashes an inconsistency left by the first one
                     \* may be observed after the second: the discriminator carries both)
           wrote,    \* database writes done in the current call
-          lastop,   \* kind of the last write
+          lastop,   \* kind of the last completed write of the running call that is not a state (trie) write:
+                    \* hnum | hdr | body | headH | canon | headB | lookup | lookupbatch | delbatch | atomic
+          moves,    \* complete head moves (headH, canon, headB) of the running call
+          inmove,   \* a head move has begun (headH written) and is not complete (headB not yet)
+          cw,       \* WHERE the crashes fell: {"last_<kind>", "inside_move" | "after_complete_move" | "before_moves"} of each crash
           crashes,
           fp,       \* parent of the further block F
           refHead,  \* head of the run that never crashed, after the interrupted call
           pruned,   \* solo engine: the ErrPrunedAncestor dispatch was reached (assumed unreachable, see NoPrunedDispatch)
           hist      \* the offered segments (generation)
-vars == <<S, todo, seg, phase, mode, rmode, cm, wrote, lastop, crashes, fp, refHead, pruned, hist>>
+vars == <<S, todo, seg, phase, mode, rmode, cm, wrote, lastop, moves, inmove, cw, crashes, fp, refHead, pruned, hist>>
 
 \* ---------------------------------------------------------------- the tree with the dynamic block F
 Par(b, f) == IF b = "F" THEN f ELSE SPar[b]
@@ -221,23 +225,28 @@ S0 == [bod |-> {"G"}, blk |-> {"G"}, roots |-> {{}}, canon |-> [n \in 0..MaxN |-
        headB |-> "G", headH |-> "G", txl |-> [t \in AllTx |-> "-"], cur |-> "G"]
 
 Init == /\ S = S0 /\ todo = <<>> /\ seg = <<>> /\ phase = "normal" /\ mode = "none" /\ rmode = "none" /\ cm = {} /\ wrote = 0
-        /\ lastop = "-" /\ crashes = 0 /\ fp = "G" /\ refHead = "G" /\ pruned = FALSE /\ hist = <<>>
+        /\ lastop = "-" /\ moves = 0 /\ inmove = FALSE /\ cw = {} /\ crashes = 0 /\ fp = "G" /\ refHead = "G" /\ pruned = FALSE /\ hist = <<>>
 
 Idle == todo = <<>>
 Call(sg, f) == CallOps(S, sg, TRUE, f, Ucon, 3)
 
 Offer(sg) == /\ phase = "normal" /\ Idle /\ Len(hist) < MaxOffers
-             /\ todo' = Call(sg, fp) /\ seg' = sg /\ mode' = ModeOfOps(S, Call(sg, fp), fp) /\ wrote' = 0 /\ lastop' = "-"
+             /\ todo' = Call(sg, fp) /\ seg' = sg /\ mode' = ModeOfOps(S, Call(sg, fp), fp) /\ wrote' = 0 /\ lastop' = "-" /\ moves' = 0 /\ inmove' = FALSE
              /\ pruned' = (pruned \/ (~Ucon /\ PrunedIn(S, sg, fp)))
              /\ hist' = Append(hist, sg)
-             /\ UNCHANGED <<S, phase, crashes, fp, refHead, rmode, cm>>
+             /\ UNCHANGED <<S, phase, crashes, fp, refHead, rmode, cm, cw>>
 
 Write == \* one database write
    /\ phase \in {"normal", "recovering", "further"} /\ todo # <<>>
    /\ S' = ApplyOp(S, Head(todo), fp)
-   /\ todo' = Tail(todo) /\ wrote' = wrote + 1 /\ lastop' = Head(todo).op
+   /\ todo' = Tail(todo) /\ wrote' = wrote + 1
+   /\ LET k == Head(todo).op IN
+      /\ lastop' = CASE k \in {"st", "panic"} -> lastop [] k = "txl" -> "lookup" [] k = "batch" -> "lookupbatch" [] k = "deltx" -> "delbatch"
+                      [] OTHER -> k
+      /\ inmove' = IF k = "headH" THEN TRUE ELSE IF k \in {"headB", "atomic"} THEN FALSE ELSE inmove
+      /\ moves' = IF k \in {"headB", "atomic"} THEN moves + 1 ELSE moves
    /\ phase' = IF Head(todo).op = "panic" THEN "dead" ELSE phase       \* nil pointer dereference in insertSidechain
-   /\ UNCHANGED <<seg, mode, rmode, cm, crashes, fp, refHead, pruned, hist>>
+   /\ UNCHANGED <<seg, mode, rmode, cm, cw, crashes, fp, refHead, pruned, hist>>
 
 Crash == \* the process dies after a write of the running call
    /\ phase \in (IF MaxCrash > 1 THEN {"normal", "recovering"} ELSE {"normal"})
@@ -246,28 +255,30 @@ Crash == \* the process dies after a write of the running call
    /\ S' = [S EXCEPT !.cur = "-"]
    /\ todo' = <<>> /\ phase' = "crashed" /\ crashes' = crashes + 1
    /\ cm' = cm \cup {IF phase = "recovering" THEN rmode ELSE mode}
-   /\ UNCHANGED <<seg, mode, rmode, wrote, lastop, fp, pruned, hist>>
+   /\ cw' = cw \cup {"last_" \o lastop, IF inmove THEN "inside_move" ELSE IF moves > 0 THEN "after_complete_move" ELSE "before_moves"}
+   /\ UNCHANGED <<seg, mode, rmode, wrote, lastop, moves, inmove, fp, pruned, hist>>
 
 Restart == \* NewBlockChain on the same database: loadLastState (+ repair); SetCurrentHeader writes the head header hash
    /\ phase = "crashed"
    /\ LET h == Repair(S, S.headB, fp) IN S' = [S EXCEPT !.cur = h, !.headH = h]
    /\ phase' = "restarted"
-   /\ UNCHANGED <<todo, seg, mode, rmode, cm, wrote, lastop, crashes, fp, refHead, pruned, hist>>
+   /\ UNCHANGED <<todo, seg, mode, rmode, cm, wrote, lastop, moves, inmove, cw, crashes, fp, refHead, pruned, hist>>
 
 ReOffer == \* "the interrupted blocks ... are imported again"
    /\ phase = "restarted"
    /\ todo' = Call(seg, fp) /\ phase' = "recovering" /\ wrote' = 0 /\ rmode' = ModeOfOps(S, Call(seg, fp), fp)
+   /\ lastop' = "-" /\ moves' = 0 /\ inmove' = FALSE
    /\ pruned' = (pruned \/ (~Ucon /\ PrunedIn(S, seg, fp)))
-   /\ UNCHANGED <<S, seg, mode, cm, lastop, crashes, fp, refHead, hist>>
+   /\ UNCHANGED <<S, seg, mode, cm, cw, crashes, fp, refHead, hist>>
 
 Further == \* "... and any one further valid block": a child of the head of the run that never crashed
    /\ phase = "recovering" /\ Idle
    /\ fp' = refHead /\ todo' = Call(<<"F">>, refHead) /\ phase' = "further"
    /\ pruned' = (pruned \/ (~Ucon /\ PrunedIn(S, <<"F">>, refHead)))
-   /\ UNCHANGED <<S, seg, mode, rmode, cm, wrote, lastop, crashes, refHead, hist>>
+   /\ UNCHANGED <<S, seg, mode, rmode, cm, cw, wrote, lastop, moves, inmove, crashes, refHead, hist>>
 
 Finish == /\ phase = "further" /\ Idle /\ phase' = "done"
-          /\ UNCHANGED <<S, todo, seg, mode, rmode, cm, wrote, lastop, crashes, fp, refHead, pruned, hist>>
+          /\ UNCHANGED <<S, todo, seg, mode, rmode, cm, cw, wrote, lastop, moves, inmove, crashes, fp, refHead, pruned, hist>>
 
 Next == (\E sg \in Segs : Offer(sg)) \/ Write \/ Crash \/ Restart \/ ReOffer \/ Further \/ Finish
 Spec == Init /\ [][Next]_vars
@@ -277,7 +288,7 @@ Obs == [head |-> S.cur, hn |-> NumOf(S.cur, fp), canon |-> [n \in 1..(MaxN + 1) 
         txl |-> S.txl, st |-> HasState(S, S.cur, fp)]
 AtRest == Idle /\ phase \in {"normal", "restarted", "done"}
 PhaseDisc == CASE phase = "normal" -> "nocrash" [] phase = "restarted" -> "crash" [] OTHER -> "recovered"
-ModeDisc == IF crashes = 0 THEN {mode} ELSE cm
+ModeDisc == IF crashes = 0 THEN {mode} ELSE cm \cup cw
 Disc(name) == Class(name, Tree(fp), Obs) \cup {PhaseDisc} \cup ModeDisc
 
 Cex(name) == PrintT("@@J " \o ToJson([kind |-> "CEX", clause |-> name, disc |-> Disc(name), h |-> hist])) /\ FALSE
@@ -296,5 +307,5 @@ NoPrunedDispatch == ~pruned
 
 \* ---------------------------------------------------------------- generation
 Leaf == (GenMode = "leaf" /\ Len(hist) = MaxOffers /\ Idle /\ phase = "normal") => PrintT("@@J " \o ToJson([kind |-> "B", h |-> hist]))
-View == <<S, todo, seg, phase, mode, rmode, cm, wrote, lastop, crashes, fp, refHead, pruned, Len(hist)>>
+View == <<S, todo, seg, phase, mode, rmode, cm, wrote, lastop, moves, inmove, cw, crashes, fp, refHead, pruned, Len(hist)>>
 =============================================================================
